@@ -475,7 +475,13 @@ class SandboxedEnvironment(Environment):
         # the double prefixes are to avoid double keyword argument
         # errors when proxying the call.
         if not __self.is_safe_callable(__obj):
-            raise SecurityError(f"{__obj!r} is not safely callable")
+            # The refused object's own __repr__ must not replace the error.
+            try:
+                name = repr(__obj)
+            except Exception:
+                name = f"<{type(__obj).__name__} object>"
+
+            raise SecurityError(f"{name} is not safely callable")
         # A bound str.format that was not obtained through getattr/getitem
         # (for example one stored in the render data) is sandboxed here.
         fmt = __self.wrap_str_format(__obj)
